@@ -395,6 +395,7 @@ func (ctx *_builtinJSON_stringifyContext) ja(array *Object) {
 	length := toLength(array.self.getStr("length", nil))
 	if length == 0 {
 		ctx.buf.WriteString("[]")
+		ctx.indent = stepback
 		return
 	}
 
@@ -476,9 +477,9 @@ func (ctx *_builtinJSON_stringifyContext) jo(object *Object) {
 		if ctx.gap != "" {
 			ctx.buf.WriteByte('\n')
 			ctx.buf.WriteString(stepback)
-			ctx.indent = stepback
 		}
 	}
+	ctx.indent = stepback
 	ctx.buf.WriteByte('}')
 }
 
